@@ -232,7 +232,9 @@ static void timeseries_histogram_fill(struct cmi_dataset_histogram *hp,
             bin = hp->num_bins - 1u;
         }
         else {
-            bin = 1u + (uint16_t)((x - hp->low_lim) / hp->binsize);
+            /* Zero bin size if the limits coincide, e.g., constant data */
+            bin = (hp->binsize > 0.0) ?
+                  1u + (uint16_t)((x - hp->low_lim) / hp->binsize) : 1u;
         }
 
         /* Add it to that bin and note the high-water mark */
